@@ -16,14 +16,17 @@ RULE = ("str::parse::<Endpoint>() + Display on the real code vs the extracted mo
 
 
 def gen_ipv6(rng):
-    groups = ["%x" % rng.choice([0, 0, 0, 1, 0xffff, rng.randrange(65536)]) for _ in range(8)]
+    # groups are written with or without leading zeros (the longest literals, 40..45 characters, are fully padded ones with a
+    # dotted-quad tail)
+    pad = rng.random() < 0.25
+    groups = [("%04x" if pad else "%x") % rng.choice([0, 0, 0, 1, 0xffff, rng.randrange(65536)]) for _ in range(8)]
     r = rng.random()
     if r < 0.35:
         i = rng.randint(0, 7)
         j = rng.randint(i, 7)
         s = ":".join(groups[:i]) + "::" + ":".join(groups[j + 1:])
     elif r < 0.5:
-        s = ":".join(groups[:6]) + ":%d.%d.%d.%d" % tuple(rng.randrange(256) for _ in range(4))
+        s = ":".join(groups[:6]) + ":%d.%d.%d.%d" % tuple((rng.choice([100, 192, 200, 255]) if pad else rng.randrange(256)) for _ in range(4))
     elif r < 0.6:
         s = "::ffff:%d.%d.%d.%d" % tuple(rng.randrange(256) for _ in range(4))
     else:
@@ -66,6 +69,21 @@ def cases(tier, rng):
             seen.append("ipc://" + "".join(rng.choice("/tmp.x- é\n*") for _ in range(rng.randint(0, 10))))
         else:
             seen.append("".join(chr(rng.choice([rng.randrange(32, 127), rng.randrange(0x80, 0x800), rng.randrange(0x4e00, 0x4e40), 0x1f600, 10, 58, 47])) for _ in range(rng.randint(0, 14))))
+    # well-formed endpoints with IPv6 literals of every length a literal can have (2 .. 45 characters: the long ones are fully
+    # zero-padded groups with a dotted-quad tail), bracketed and bare
+    for _ in range(300 if tier == "quick" else 4000):
+        groups = ["%04x" % rng.choice([0, 1, 0xffff, rng.randrange(65536)]) for _ in range(8)]
+        shape = rng.random()
+        if shape < 0.5:
+            quad = ".".join(str(rng.choice([rng.randrange(10), rng.randrange(10, 100), rng.randrange(100, 256)])) for _ in range(4))
+            lit = ":".join(groups[:6]) + ":" + quad
+        elif shape < 0.75:
+            lit = ":".join(groups)
+        else:
+            lit = ":".join(g.lstrip("0") or "0" for g in groups)
+        if rng.random() < 0.2:
+            lit = lit.upper()
+        seen.append("tcp://%s:%d" % (lit if rng.random() < 0.5 else "[" + lit + "]", rng.choice([0, 1, 80, 5555, 65535])))
     out = []
     for i, s in enumerate(dict.fromkeys(seen)):
         out.append("e%d ep %s" % (i, s.encode("utf8").hex() or "-"))
